@@ -670,6 +670,27 @@ def shape_stream():
             yield lines
 
 
+def big_stream():
+    """Deterministic large queues (beyond 32 and 64 entries): a reschedule to a more and to a less
+    urgent priority, a removal and a find-remove at a spread of positions, then a drain — size-dependent
+    shortcuts (e.g. a different heap repair above some length) need this."""
+    for n in (40, 70):
+        for k in range(0, n, max(1, n // 9)):
+            for how, arg in (("resched", -5), ("resched", 50), ("remove", None), ("find", None)):
+                lines = ["pq 0 new"] + [f"pq 0 add {(i * 7) % 11} {i + 1}" for i in range(n)]
+                if how == "resched":
+                    lines.append(f"pq 0 resched {k + 1} {arg}")
+                elif how == "remove":
+                    lines.append(f"pq 0 remove {k + 1}")
+                else:
+                    lines.append(f"pq 0 find {k + 1} 1")
+                lines += ["pq 0 popitem", "pq 0 drain"]
+                yield lines
+            lines = ["pos 0 new 0"] + [f"pos 0 appendpri {i + 1} {(i * 7) % 11}" for i in range(n)]
+            lines += [f"pos 0 resched {k + 1} -5", "pos 0 popleft", f"pos 0 find {(k + 3) % n + 1} 1", "pos 0 drain"]
+            yield lines
+
+
 def exhaustive_pos(maxlen):
     """All PosPriorityQueue histories up to `maxlen` ops over a small alphabet (boosting off)."""
     alpha = ["app 0", "app 1", "app -1", "ins 0", "ins 1", "ins 2", "pop", "rm 0", "res 0 1", "res 1 -1", "rall"]
@@ -707,6 +728,7 @@ def run(ctx):
     c17_heapq.run(ctx, *((3000, 60) if ctx.thorough() else (300, 60)))
     explore(ctx, corpus_cases(), label="corpus: ")
     explore(ctx, list(shape_stream()), label="heap shapes: ")
+    explore(ctx, list(big_stream()), label="large queues: ")
     if ctx.thorough():
         n_pq, n_pos, ln_max, n_long = 6000, 6000, 40, 150
     else:
